@@ -89,10 +89,14 @@ func ReadHeader(h *protocol.ResponseHeader, r network.Reader) error {
 func WriteHeader(h *protocol.ResponseHeader, w network.Writer) error {
 	header := h.Header()
 	h.SetHeaderLength(len(header))
-	_, err := w.WriteBinary(header)
+	// header is the scratch buffer of h, which the next Set or Header call overwrites,
+	// and the body is produced by the application before the flush: copy it instead of
+	// handing it over by reference
+	buf, err := w.Malloc(len(header))
 	if err != nil {
 		return err
 	}
+	copy(buf, header)
 	return nil
 }
 
